@@ -9,20 +9,50 @@
    by the OS (EPIPE, ECONNRESET), not short transfers or EINTR.
    The first group ties the model to the code translated on this run. *)
 From Coq Require Import ZArith List Bool.
-From BV Require Import Lib.PyVal Gen.K_framing Model.Framing Proofs.FramingProofs Proofs.FramingGen.
+From BV Require Import Lib.PyVal Gen.K_framing Model.Framing Proofs.FramingProofs Proofs.FramingGen
+     Proofs.FramingShape Proofs.FramingGenLoops Proofs.FramingFail.
 Import ListNotations.
 Open Scope Z_scope.
 
 (* ---------------- the generated code is the model ---------------- *)
 
-Theorem C13_code_send_bytes : forall c h buf off size it n,
-    K_framing.send_bytes (emb c h) buf (PInt off) (optv size) (PInt it) (PInt n) =
-    match send_args c n off size with
-    | inl e => Exc (kind_exn e) (emb c h)
-    | inr (lo, hi) => Ok PNone (set_out_hi (set_out_lo (emb c h) (PInt lo)) (PInt hi))
+(* send_bytes.  it = m.itemsize, d0 = first dimension of the caller's buffer (None:
+   0-dimensional, len() raises TypeError), nbytes = its size in bytes.  The length
+   all argument checks use (code_len) is the byte count ONLY on the `itemsize > 1`
+   path, where the flat copy (view token 1) is sliced; otherwise it is the first
+   dimension of the caller's own view (token 0), which is then sliced by rows.
+   (Replaces the earlier statement, which took one abstract length `n` for both
+   paths and did not say which view is sliced.) *)
+Theorem C13_code_send_bytes : forall c h buf off size it d0 nbytes,
+    K_framing.send_bytes (emb c h) buf (PInt off) (optv size) (PInt it) (dimv d0) (PInt nbytes) =
+    match code_len it d0 nbytes with
+    | None => Exc (if closed c then OSError else if negb (writable c) then OSError else TypeError) (emb c h)
+    | Some n =>
+        match send_args c n off size with
+        | inl e => Exc (kind_exn e) (emb c h)
+        | inr (lo, hi) =>
+            Ok PNone (set_out_hi (set_out_lo (set_out_base (emb c h) (code_view it)) (PInt lo)) (PInt hi))
+        end
     end.
 Proof. exact gen_send_bytes. Qed.
 Print Assumptions C13_code_send_bytes.
+
+(* for a buffer b of the model the generated send_bytes takes exactly the decisions
+   of send_bytes_sh: rejection, or rows lo..hi of view_of b *)
+Theorem C13_code_send_bytes_any_buffer : forall c h buf b off size,
+    K_framing.send_bytes (emb c h) buf (PInt off) (optv size)
+                         (PInt (pb_item b)) (dimv (dim0_of b)) (PInt (len (pb_bytes b))) =
+    match view_of b with
+    | None => Exc (if closed c then OSError else if negb (writable c) then OSError else TypeError) (emb c h)
+    | Some (rows, rs) =>
+        match send_args c rows off size with
+        | inl e => Exc (kind_exn e) (emb c h)
+        | inr (lo, hi) =>
+            Ok PNone (set_out_hi (set_out_lo (set_out_base (emb c h) (code_view (pb_item b))) (PInt lo)) (PInt hi))
+        end
+    end.
+Proof. exact gen_send_bytes_buf. Qed.
+Print Assumptions C13_code_send_bytes_any_buffer.
 
 Theorem C13_code_recv_bytes : forall c h mx rb,
     K_framing.recv_bytes (emb c h) (optv mx) rb =
@@ -48,7 +78,7 @@ Theorem C13_code_recv_bytes_into : forall c h buf off it nitems rb msgsize,
         | PErr e => Exc e (emb c h)
         | _ => if it * nitems <? off + msgsize then Exc BufferTooShort (emb c h)
                else Ok (PInt msgsize)
-                       (set_out_hi (set_out_lo (emb c h) (PInt (off / it))) (PInt ((off + msgsize) / it)))
+                       (set_out_hi (set_out_lo (set_out_base (emb c h) mv_orig) (PInt (off / it))) (PInt ((off + msgsize) / it)))
         end
     end.
 Proof. exact gen_recv_bytes_into. Qed.
@@ -84,6 +114,75 @@ Theorem C13_code_recv_loop_body : forall c h r size n,
      else Ok PNone (with_rem c h (r - n))).
 Proof. intros; split; [apply gen_recv_cond|apply gen_recv_else]. Qed.
 Print Assumptions C13_code_recv_loop_body.
+
+(* ---------------- the loops rebuilt from the generated fragments ---------------- *)
+
+(* Connection._send interpreted over send_else (Proofs/FramingGenLoops.v) is the
+   model loop, for every script, every `remaining`, every buffer, every row width;
+   with rows of one byte and remaining = len(buf) it is the 1-D send_loop that
+   C13_wire_format / C13_roundtrip are about *)
+Theorem C13_gen_send_loop : forall c h rs o remaining buf,
+    gen_send_loop c h rs o remaining buf = send_loop_sh rs o remaining buf.
+Proof. exact gen_send_loop_eq. Qed.
+Print Assumptions C13_gen_send_loop.
+
+Theorem C13_gen_send_loop_1d : forall c h o buf,
+    gen_send_loop c h 1 o (len buf) buf = send_loop o buf.
+Proof. exact gen_send_loop_flat. Qed.
+Print Assumptions C13_gen_send_loop_1d.
+
+(* Connection._recv interpreted over recv_cond / recv_else is recv_loop / recv_exact *)
+Theorem C13_gen_recv_loop : forall c h o size remaining stream,
+    0 < remaining <= size ->
+    gen_recv_loop c h o size remaining stream = recv_loop o size remaining stream.
+Proof. exact gen_recv_loop_eq. Qed.
+Print Assumptions C13_gen_recv_loop.
+
+Theorem C13_gen_recv_exact : forall c h o size stream,
+    gen_recv_exact c h o size stream = recv_exact o size stream.
+Proof. exact gen_recv_exact_eq. Qed.
+Print Assumptions C13_gen_recv_exact.
+
+(* _send_bytes = generated send_plan + generated loops; _recv_bytes = generated
+   recv_plan + generated loops *)
+Theorem C13_gen_send_bytes_raw : forall c h o rows rs payload,
+    -2147483648 <= rows ->
+    gen_send_raw c h o rows rs payload = send_raw_sh o rows rs payload.
+Proof. exact gen_send_raw_eq. Qed.
+Print Assumptions C13_gen_send_bytes_raw.
+
+Theorem C13_gen_send_bytes_raw_1d : forall c h o m,
+    gen_send_raw c h o (len m) 1 m = send_bytes_raw o m.
+Proof. exact gen_send_raw_flat. Qed.
+Print Assumptions C13_gen_send_bytes_raw_1d.
+
+Theorem C13_gen_recv_bytes_raw : forall c h o stream mx,
+    gen_recv_raw c h o stream mx = recv_bytes_raw o stream mx.
+Proof. exact gen_recv_raw_eq. Qed.
+Print Assumptions C13_gen_recv_bytes_raw.
+
+(* an iteration of _send that wrote nothing while `remaining` is not 0 changes
+   nothing: that state repeats for ever (what ESpin stands for) *)
+Theorem C13_gen_spin_fixpoint : forall c h r, r <> 0 -> gen_sstep c h r 0 = SsNext 0 r.
+Proof. exact gen_spin_fixpoint. Qed.
+Print Assumptions C13_gen_spin_fixpoint.
+
+(* two property theorems restated on the generated-code functions *)
+Theorem C13_gen_wire_format : forall c h o m o' w t e,
+    gen_send_raw c h o (len m) 1 m = (o', w, t, e) ->
+    (exists rest, encode m = w ++ rest /\ (e = None -> rest = [])) /\
+    (e = None -> len m <= MAXLEN) /\
+    (MAXLEN < len m -> e = Some EStruct /\ w = [] /\ t = [] /\ o' = o) /\
+    (~ In WErr o -> len m <= MAXLEN -> e = None).
+Proof. exact gen_send_raw_spec. Qed.
+Print Assumptions C13_gen_wire_format.
+
+Theorem C13_gen_never_short : forall c h o stream mx o' s' t d,
+    gen_recv_raw c h o stream mx = (o', s', t, inr (Some d)) ->
+    exists hd, stream = hd ++ d ++ s' /\ len hd = 4 /\ len d = Z.max 0 (dec32 hd) /\
+               over_max (dec32 hd) mx = false.
+Proof. exact gen_recv_raw_sound. Qed.
+Print Assumptions C13_gen_never_short.
 
 Theorem C13_code_state_changes : forall c h,
     bad_message_length (emb c h) = Exc OSError (emb (bad_length c) h) /\
@@ -134,6 +233,83 @@ Theorem C13_send_args : forall c n off size lo hi,
 Proof. exact send_args_spec. Qed.
 Print Assumptions C13_send_args.
 
+(* ---------------- buffers of any shape ---------------- *)
+
+(* C13_wire_format, C13_send_args, C13_roundtrip and C13_validation speak of
+   `send_bytes c o buf ...` / `SSend buf ...`, where buf is a LIST OF BYTES: a
+   one-dimensional buffer of single bytes.  That hypothesis is made explicit here.
+   A buffer object in general is (bytes, item size, shape); the code works on
+   view_of b.  On every flat view -- shape [len bytes] with items of one byte, or
+   ANY shape with items wider than a byte (the code copies those to flat bytes) --
+   send_bytes is send_bytes on the bytes, for every script, offset and size: all
+   the theorems above apply. *)
+Theorem C13_flat_views : forall c o b off size,
+    flat_view b -> send_bytes_sh c o b off size = send_bytes c o (pb_bytes b) off size.
+Proof. exact send_bytes_sh_flat. Qed.
+Print Assumptions C13_flat_views.
+
+(* what remains: items of one byte and at least two dimensions (or a dimension 0).
+   With at most 16384 rows selected and no OS error the wire is a header that
+   announces the NUMBER OF ROWS followed by ALL (rows * row size) bytes ... *)
+Theorem C13_shaped_wire : forall c o b d0 rest off size lo hi,
+    wf_buf b -> pb_item b <= 1 -> pb_shape b = d0 :: rest ->
+    send_args c d0 off size = inr (lo, hi) -> hi - lo <= THRESH -> ~ In WErr o ->
+    let p := slice (lo * prod rest) (hi * prod rest) (pb_bytes b) in
+    exists o' t, send_bytes_sh c o b off size = (o', be32 (hi - lo) ++ p, t, None) /\
+                 len p = (hi - lo) * prod rest /\ incl o' o.
+Proof. exact shaped_wire. Qed.
+Print Assumptions C13_shaped_wire.
+
+(* ... and a receiver takes the first k = rows bytes of that payload for the whole
+   message and leaves the other bytes where the next header is expected *)
+Theorem C13_shaped_received : forall c o k p rest,
+    openr c -> ~ In RErr o -> 0 <= k <= len p -> k <= MAXLEN ->
+    exists o' t, recv_bytes c o (be32 k ++ p ++ rest) None =
+                 (c, o', drop k p ++ rest, t, inr (take k p)) /\ incl o' o.
+Proof. exact shaped_received. Qed.
+Print Assumptions C13_shaped_received.
+
+(* so the property ("from any bytes-like object ... received as exactly the same
+   bytes", next message intact) is FALSE of the code.  Witness:
+   memoryview(bytes(range(12))).cast('B', shape=[3, 4]) then b"next", cooperative OS:
+   both sends return normally, the wire is not the framing of the two messages, the
+   receiver gets 3 bytes and then OSError (105) instead of b"next" *)
+Theorem C13_send_shaped_refuted :
+  exists sc rc b off size m,
+    wf_buf b /\ openw sc /\ openr rc /\ wanted b off size = Some m /\ fits m /\
+    exists wire tw tr unread d,
+      run_sender sc [] [SSendSh b off size; SSend w_next 0 None] =
+        (wire, tw, [(0, flags sc); (0, flags sc)]) /\
+      wire <> wire_of [m; w_next] /\
+      run_receiver rc [] wire [RRecv None; RRecv None] =
+        (unread, tr, [mk_robs 0 d (-1) [] (flags rc); mk_robs 105 [] (-1) [] (flags rc)]) /\
+      d <> m.
+Proof. exact send_shaped_refuted. Qed.
+Print Assumptions C13_send_shaped_refuted.
+
+Theorem C13_shaped_wire_refuted :
+  exists c b off size m w t,
+    wf_buf b /\ wanted b off size = Some m /\
+    send_bytes_sh c [] b off size = ([], w, t, None) /\ w <> encode m.
+Proof. exact shaped_wire_refuted. Qed.
+Print Assumptions C13_shaped_wire_refuted.
+
+(* more than 16384 rows of at least two bytes on a cooperative OS: header and all
+   bytes are written, then the write-all loop can neither finish nor change state:
+   send_bytes never returns.  General statement and a concrete instance. *)
+Theorem C13_shaped_spins : forall c b d0 rest,
+    wf_buf b -> pb_item b <= 1 -> pb_shape b = d0 :: rest ->
+    openw c -> THRESH < d0 <= MAXLEN -> 2 <= prod rest ->
+    send_bytes_sh c [] b 0 None = ([], be32 d0 ++ pb_bytes b, [4; len (pb_bytes b)], Some ESpin).
+Proof. exact shaped_spins. Qed.
+Print Assumptions C13_shaped_spins.
+
+Theorem C13_send_shaped_spin_refuted :
+  exists c b, wf_buf b /\ openw c /\ wanted b 0 None = Some (pb_bytes b) /\ fits (pb_bytes b) /\
+              exists w t, send_bytes_sh c [] b 0 None = ([], w, t, Some ESpin).
+Proof. exact send_shaped_spin_refuted. Qed.
+Print Assumptions C13_send_shaped_spin_refuted.
+
 (* ---------------- round trip ---------------- *)
 
 Theorem C13_roundtrip : forall sc rc wo ro ops msgs mxs rest,
@@ -144,6 +320,17 @@ Theorem C13_roundtrip : forall sc rc wo ro ops msgs mxs rest,
       run_receiver rc ro (wire_of msgs ++ rest) (recvs mxs) = (rest, tr, map (ok_obs rc) msgs).
 Proof. exact roundtrip. Qed.
 Print Assumptions C13_roundtrip.
+
+(* the same for send operations on buffer objects of any shape whose view is flat
+   (valid_send_any includes every valid_send): strictly more operations *)
+Theorem C13_roundtrip_any_buffer : forall sc rc wo ro ops msgs mxs rest,
+    Forall2 (valid_send_any sc) ops msgs -> Forall fits msgs -> Forall2 max_ok msgs mxs ->
+    openr rc -> ~ In WErr wo -> ~ In RErr ro ->
+    exists tw tr,
+      run_sender sc wo ops = (wire_of msgs, tw, map (fun _ => (0, flags sc)) msgs) /\
+      run_receiver rc ro (wire_of msgs ++ rest) (recvs mxs) = (rest, tr, map (ok_obs rc) msgs).
+Proof. exact roundtrip_any. Qed.
+Print Assumptions C13_roundtrip_any_buffer.
 
 (* ANY script (errors included) and ANY stream (garbage included): a message that
    recv_bytes returns is exactly the bytes announced by the 4 bytes before it, the
@@ -179,6 +366,24 @@ Theorem C13_eof : forall msgs mxs c o m partial more mx,
                       [] (-1) [] (flags c)]).
 Proof. exact eof_after. Qed.
 Print Assumptions C13_eof.
+
+(* a sender that fails, under ANY write script (OS errors included): the first k
+   send_bytes calls return normally, the next raises the OS error (106).  Then the
+   wire is the k framed messages plus a PROPER prefix of the framing of the failing
+   one, and the receiver (any read script without an OS error) delivers exactly the
+   k messages, then EOFError / OSError as in C13_eof: never a short message *)
+Theorem C13_sender_failure : forall sc rc wo ro ops msgs op m wire tw fl mxs mx,
+    Forall2 (valid_send sc) ops msgs -> valid_send sc op m ->
+    run_sender sc wo (ops ++ [op]) = (wire, tw, map (fun _ => (0, flags sc)) msgs ++ [(106, fl)]) ->
+    openr rc -> ~ In RErr ro -> Forall2 max_ok msgs mxs -> max_ok m mx ->
+    exists partial more s t,
+      wire = wire_of msgs ++ partial /\ encode m = partial ++ more /\ more <> [] /\
+      run_receiver rc ro wire (recvs mxs ++ [RRecv mx]) =
+      (s, t, map (ok_obs rc) msgs ++
+             [mk_robs (if (len partial =? 0) || (len partial =? 4) then 301 else 105)
+                      [] (-1) [] (flags rc)]).
+Proof. exact sender_failure. Qed.
+Print Assumptions C13_sender_failure.
 
 (* ---------------- maxlength ---------------- *)
 
@@ -229,6 +434,40 @@ Theorem C13_into_unaligned_refuted :
     ~ into_lands buf off m b.
 Proof. exact into_unaligned_refuted. Qed.
 Print Assumptions C13_into_unaligned_refuted.
+
+(* the three theorems above are about a buffer given as a list of bytes and an item
+   size: a ONE-DIMENSIONAL buffer of len buf / it items.  For a buffer of any shape
+   the code takes len(m) = first dimension (bytesize = it * d0) and slices rows;
+   for shape [len buf / it] that is the function above: *)
+Theorem C13_into_1d : forall c o stream buf it off,
+    recv_bytes_into_sh c o stream buf it [len buf / it] off = recv_bytes_into c o stream buf it off.
+Proof. exact into_sh_1d. Qed.
+Print Assumptions C13_into_1d.
+
+(* every shape: at offset 0 a message of whole items that is no longer than
+   itemsize * FIRST DIMENSION lands at the start of the buffer, rest unchanged *)
+Theorem C13_into_shaped_at_0 : forall c o m rest_s buf it d0 rest,
+    openr c -> ~ In RErr o -> fits m ->
+    0 < it -> len m mod it = 0 -> 1 <= prod rest -> len m <= it * d0 ->
+    exists o' t, recv_bytes_into_sh c o (encode m ++ rest_s) buf it (d0 :: rest) 0 =
+                 (c, o', rest_s, t, inr (len m, m ++ drop (len m) buf)) /\ incl o' o.
+Proof. exact into_sh_ok_at_0. Qed.
+Print Assumptions C13_into_shaped_at_0.
+
+(* beyond that the statement is FALSE for multi-dimensional buffers (12 bytes as
+   3 rows of 4): at offset 1 the message is stored at byte 4 and its length returned
+   normally; a 4-byte message at offset 0 raises BufferTooShort although it fits *)
+Theorem C13_into_shaped_refuted :
+  (exists c o m buf it shape off o' t b,
+      openr c /\ ~ In RErr o /\ fits m /\ len buf = it * prod shape /\
+      0 <= off /\ off + len m <= len buf /\
+      recv_bytes_into_sh c o (encode m) buf it shape off = (c, o', [], t, inr (len m, b)) /\
+      ~ into_lands buf off m b) /\
+  (exists c o m buf it shape o' t,
+      openr c /\ ~ In RErr o /\ fits m /\ len buf = it * prod shape /\ len m <= len buf /\
+      recv_bytes_into_sh c o (encode m) buf it shape 0 = (c, o', [], t, inl (ETooShort m))).
+Proof. exact into_shaped_refuted. Qed.
+Print Assumptions C13_into_shaped_refuted.
 
 (* ---------------- rejected before any I/O ---------------- *)
 
